@@ -636,6 +636,13 @@ def _dk_reader(src, fn):
                 raise AnchorLost("%s:%s process_input_dict_keys called with a policy" % (src.rel, fn.name))
     wiring, mandatory, optional_get, units_default = [], [], [], None
     varkeys = {}
+    # the dictionary of constructor arguments: the name splatted into a call (`Cls(**da)`), whatever it is called
+    kw_name = "da"
+    for n in ast.walk(fn):
+        if isinstance(n, ast.Call):
+            for kw in n.keywords:
+                if kw.arg is None and isinstance(kw.value, ast.Name) and kw.value.id != "d":
+                    kw_name = kw.value.id
 
     def keys_of(expr):
         ks = []
@@ -709,7 +716,7 @@ def _dk_reader(src, fn):
                         varkeys[tgt.id] = ks
                     elif guards and tgt.id in varkeys:
                         pass
-                elif isinstance(tgt, ast.Subscript) and isinstance(tgt.value, ast.Name) and tgt.value.id == "da" \
+                elif isinstance(tgt, ast.Subscript) and isinstance(tgt.value, ast.Name) and tgt.value.id == kw_name \
                         and isinstance(tgt.slice, ast.Constant):
                     p = tgt.slice.value
                     if ud is not None:
